@@ -373,9 +373,6 @@ loop:
 				close(e.release)
 			default:
 				gates++
-				if e.name == "before-swap" && sc.Pump && sc.CrashStage == "" {
-					startPump()
-				}
 				if batch < len(sc.Batches) {
 					for _, cmd := range sc.Batches[batch] {
 						name := strings.ToLower(cmd[0])
@@ -387,6 +384,11 @@ loop:
 						writesDuring++
 					}
 					batch++
+				}
+				// the free-running writer starts after the last gate's writes
+				// (which may be FLUSHDB/DROP) and only touches its own key
+				if e.name == "before-swap" && sc.Pump && sc.CrashStage == "" {
+					startPump()
 				}
 				close(e.release)
 			}
@@ -533,7 +535,7 @@ func TestC09_Shrink(t *testing.T) {
 	c := ev.New("C09", "shrink", "fault_enumeration")
 	t.Cleanup(c.Flush)
 	c.Rule("datasets of 0-20 collections x 1-100 objects (sizes 31/32/33/64/65 over-sampled so both batch limits, 8 keys and 32 ids, are crossed; every object kind incl. empty geometries, circle features, binary strings; fields of every value kind; deadlines; hooks and channels with META and EX) loaded into a server and an un-shrunk twin; AOFSHRINK runs with the rewrite parked between scan batches, where generated writes (keyspace commands on scanned and unscanned keys/ids, DROP, RENAME, FLUSHDB, hook commands) go to both servers; optionally the data directory is snapshotted at one named step of the final swap (= process kill there) and booted. Oracles: equal replies during the shrink, dump(shrunk)==dump(twin), restart on the shrunk directory == twin with deadlines not shortened by more than 2 s, crash snapshot == twin. Non-trivial: writes issued during a multi-batch rewrite, or a crash stage; distinct by (collection sizes, write commands per batch, crash stage).")
-	ev.Rapid("shrink", ev.Pick(70, 600))
+	ev.Rapid("shrink", ev.Pick(150, 600))
 	rapid.Check(t, func(rt *rapid.T) {
 		sc := drawCase(rt)
 		c.Case()
